@@ -29,7 +29,155 @@ def build_cases(rng, tier):
     return cases
 
 
+# ------------------------------------------------------------------ yyunput on the buffer as addresses (coq/Unput.v)
+def unput_cases(rng, tier):
+    """One scanner per (back end, buffer size); runs over (file length, position of the token, number of unputs)."""
+    cases = []
+    sizes = [4, 5, 8, 13] if tier == "quick" else [3, 4, 5, 6, 8, 13, 16, 31]
+    for be in ('nr', 'r', 'c99', 'cxx'):
+        for n in sizes:
+            r = rng.fork("unput-%s-%d" % (be, n))
+            runs = []
+            for L in range(1, n):
+                for pos in sorted(set([0, L - 1, r.below(L)])):
+                    for k in sorted(set([0, 1, 2, n - L - 1, n - L, n - L + 1, n - L + pos, n - L + pos + 1, n + 1, r.below(n + 3)])):
+                        if 0 <= k <= n + 3:
+                            runs.append((L, pos, k))
+            if be == 'cxx':
+                # the C++ class reads character by character unless the scanner is a batch scanner; a batch scanner looks one
+                # byte beyond the token, so the token must not be the last byte buffered (that would be a refill at end of input)
+                runs = [(L, pos, k) for (L, pos, k) in runs if pos < L - 1]
+            cases.append({'id': "u%s%d" % (be, n), 'kind': 'unput', 'backend': be, 'bufsize': n, 'runs': runs, 'seed': r.s,
+                          'flex_opts': ["-8", "-B"] if be == 'cxx' else ["-8"], 'text': '', 'focus': ['unput-grid'], 'extra_options': [], 'sources': []})
+    return cases
+
+
+def unput_worker(case):
+    import os
+    import scanner
+    import backends
+    from common import run, Rng
+    wd = os.path.join(engine._ROOT, "c%s" % case['id'])
+    os.makedirs(wd, exist_ok=True)
+    res = {'problems': [], 'lockstep': [], 'streams': [], 'id': case['id'], 'unput_runs': 0, 'unput_overflows': 0}
+    be, n = case['backend'], case['bufsize']
+    try:
+        prog = {'csize': 256, 'caseins': False, 'scs': [], 'rules': [{'head': ('c', 120), 'bol': False, 'scs': None, 'trail': None}]}
+        act = ('tok(1); { static int k = -1; int i; if (k < 0) k = atoi(getenv("UNPUT_K")); '
+               'for (i = 0; i < k; i++) { yyunput(49 + i % 9); } }')
+        options = ["bufsize=%d" % n] if be == 'c99' else []
+        text = scanner.make_spec(prog, Rng(case['seed']).fork("print"), options=options, actions={0: act}, backend=be)
+        text = text.replace(" nounput", "")
+        res['text'] = text
+        with open(os.path.join(wd, "s.l"), "w") as f:
+            f.write(text)
+        cfile = "s." + backends.BACKENDS[be]['ext']
+        rc, out, err = scanner.run_flex(engine._FLEX, "s.l", cfile, case['flex_opts'], wd)
+        if rc != 0:
+            res['problems'].append(('flex-error', err.decode(errors='replace')[:300]))
+            return res
+        rc, out, err = scanner.compile_c(cfile, "s.exe", wd, extra=(["-DYY_BUF_SIZE=%d" % n] if be != 'c99' else []) +
+                                         ["-I" + os.path.dirname(engine._FLEX)], backend=be)
+        if rc != 0:
+            res['problems'].append(('compile-error', err.decode(errors='replace')[:400]))
+            return res
+        queries, reals = [], []
+        for (L, pos, k) in case['runs']:
+            data = [97] * pos + [120] + [98] * (L - pos - 1)
+            ip = os.path.join(wd, "in.bin")
+            with open(ip, "wb") as f:
+                f.write(bytes(data))
+            rc, out, err = run([os.path.join(wd, "s.exe"), ip], timeout=20, env={"UNPUT_K": str(k)})
+            toks = scanner.parse_tokens(out)
+            overflow = b"push-back overflow" in err
+            if rc != 0 and not overflow:
+                res['problems'].append(('scanner-abnormal', "bufsize=%d file=%s unputs=%d rc=%s stderr=%s" % (n, bytes(data).hex(), k, rc, err[:200])))
+                continue
+            reals.append((L, pos, k, overflow, [t[2] for t in toks[pos + 1:]] if not overflow else None, toks[:pos + 1]))
+            cs = [49 + i % 9 for i in range(k)]
+            queries.append("(unputrun %d %d %d (%s) (%s))" % (n, L, pos + 1, " ".join(map(str, data)), " ".join(map(str, cs))))
+        case_sx = "(case %s\n(queries (%s)))\n" % (scanner.sx_program(prog), "\n".join(queries))
+        rc, out, err = scanner.run_driver(case_sx, wd, timeout=120)
+        if rc != 0:
+            res['problems'].append(('driver-error', "rc=%s %s" % (rc, err[:300])))
+            return res
+        lines = [l for l in out.splitlines() if l.startswith("unputrun")]
+        for (L, pos, k, overflow, hashes, head), line in zip(reals, lines):
+            res['unput_runs'] += 1
+            parts = line.split()
+            m_over = parts[1] == "OVERFLOW"
+            desc = "back end %s, buffer size %d, %d bytes buffered, token x at offset %d, %d x yyunput" % (be, n, L, pos, k)
+            if m_over != overflow:
+                res['problems'].append(('unput-overflow-mismatch', "%s: the scanner %s, the buffer model (coq/Unput.v, unput_overflow_iff) says %s" % (
+                    desc, "stops with 'push-back overflow'" if overflow else "goes on", "overflow" if m_over else "there is room")))
+                continue
+            if overflow:
+                res['unput_overflows'] += 1
+                continue
+            want = [scanner.fnv([int(x)]) for x in parts[2:]]
+            if hashes != want:
+                res['problems'].append(('unput-content-mismatch', "%s: bytes scanned after the unputs differ from the model (unputs_unread): "
+                                        "model %s" % (desc, parts[2:])))
+    except Exception as ex:
+        import traceback
+        res['problems'].append(('harness-error', repr(ex) + traceback.format_exc()[-300:]))
+    return res
+
+
+def worker(case):
+    if case.get('kind') == 'unput':
+        return unput_worker(case)
+    return engine.stream_worker(case)
+
+
+def judge(ck, flex, scratch, cases, results, stats):
+    sc = [(c, r) for c, r in zip(cases, results) if c.get('kind') != 'unput']
+    engine.judge_stream(ck, flex, scratch, [c for c, _ in sc], [r for _, r in sc], stats)
+    stats['unput_grid_runs'] = sum(r.get('unput_runs', 0) for r in results)
+    stats['unput_grid_overflows_agreed'] = sum(r.get('unput_overflows', 0) for r in results)
+    for c, r in zip(cases, results):
+        if c.get('kind') != 'unput':
+            continue
+        c['text'] = r.get('text', '')
+        for kind, msg in r['problems']:
+            stats.setdefault('problem_kinds', {})
+            stats['problem_kinds'][kind] = stats['problem_kinds'].get(kind, 0) + 1
+        if not r['problems']:
+            continue
+        kind, msg = r['problems'][0]
+        ck.violation("%s:%s%d" % (kind, c['backend'], c['bufsize']), msg[:600],
+                     {'spec': c['text'], 'flex_opts': c['flex_opts'], 'backend': c['backend'], 'bufsize': c['bufsize'],
+                      'detail': [list(p) for p in r['problems'][:4]],
+                      'correspondence': 'coq/Unput.v (unputs, extracted) vs compiled scanner',
+                      'how': "flex -8 -o s.c s.l; cc -DYY_BUF_SIZE=<n> (c99: %option bufsize); UNPUT_K=<k> ./s file; the action of x calls yyunput k times"},
+                     no_input=kind in ('harness-error', 'driver-error'))
+
+
+def build_all(rng, tier):
+    return build_cases(rng, tier) + unput_cases(rng.fork("unput"), tier)
+
+
 def main(tier):
+    orig = engine.judge
+    engine.judge = judge
+    try:
+        return engine.standard_main(
+            PROP, tier, "Properties_C08.v", build_all,
+            "action programs choosing yyless (constant and length-relative arguments), yyunput (incl. newline, NUL, 8-bit), yyinput "
+            "(across sources supplied by yywrap and at end of input), yymore, yysetbol per rule x %pointer/%array x back end x table option x "
+            "small buffer sizes; every event (rule, yyleng, hash of yytext, yyinput value) is compared with the stream machine; "
+            "yyunput grid: (back end, buffer size, bytes buffered, offset of the token, number of unputs) compared with the buffer model "
+            "coq/Unput.v (push-back overflow exactly when the model says so, bytes scanned afterwards = model's unread bytes); "
+            "non-trivial = DFA >= 3 states and >= 2 rules matched",
+            ["yyless / yymore after yyunput or yyinput in the same action are not generated (yytext is not defined then)",
+             "every action gives back fewer bytes than its token has (termination)",
+             "the buffer layout is modelled for the refill (coq/BufLayout.v) and for yyunput (coq/Unput.v) and tied by correspondence"],
+            worker=worker, post=lambda ck, flex, scratch, cases, results, stats: {k: stats.get(k, 0) for k in ['unput_grid_runs', 'unput_grid_overflows_agreed']})
+    finally:
+        engine.judge = orig
+
+
+def _old_main(tier):
     return engine.stream_main(
         PROP, tier, "Properties_C08.v", build_cases,
         "action programs choosing yyless (constant and length-relative arguments), yyunput (incl. newline, NUL, 8-bit), yyinput "
